@@ -69,7 +69,9 @@ func typeSeed(t types.Type) string {
 func newTaint(p *Program) *taintAnalysis {
 	ta := &taintAnalysis{p: p, tainted: map[ssa.Value]string{}, cells: map[*ssa.Alloc]string{}, retT: map[*ssa.Function]map[int]string{}, impls: map[string][]*ssa.Function{}}
 	for _, f := range p.UFuncs() {
-		ta.fns = append(ta.fns, f)
+		// every function is analysed in the representation the rules see (its view when helpers are folded in);
+		// summaries (retT) and dispatch tables are keyed by the function as written
+		ta.fns = append(ta.fns, p.view(f))
 		if f.Signature.Recv() != nil {
 			ta.impls[f.Name()] = append(ta.impls[f.Name()], f)
 		}
@@ -170,7 +172,7 @@ func (ta *taintAnalysis) implsFor(it types.Type, name string) []*ssa.Function {
 }
 
 func (ta *taintAnalysis) retTaint(f *ssa.Function, idx int) (string, bool) {
-	m := ta.retT[f]
+	m := ta.retT[ta.p.orig(f)]
 	if m == nil {
 		return "", false
 	}
@@ -357,7 +359,7 @@ func (ta *taintAnalysis) step(fn *ssa.Function) {
 				for i := range x.Results {
 					for _, rv := range returnedValues(fn, x, i) {
 						if w, ok := ta.is(rv); ok {
-							ta.setRet(fn, i, w)
+							ta.setRet(ta.p.orig(fn), i, w)
 						}
 					}
 				}
@@ -462,6 +464,7 @@ func (ta *taintAnalysis) passArgs(fn *ssa.Function, c ssa.CallInstruction) {
 	} else if f := cc.StaticCallee(); f != nil && f.Blocks != nil {
 		if pi, m, ok := trampolineTarget(f); ok && pi < len(cc.Args) {
 			if tgt := ta.concreteMethod(cc.Args[pi], m); tgt != nil {
+				tgt = ta.p.view(tgt)
 				// map the non-interface args onto the concrete method's params after the receiver
 				k := 1
 				for i, a := range cc.Args {
@@ -482,6 +485,7 @@ func (ta *taintAnalysis) passArgs(fn *ssa.Function, c ssa.CallInstruction) {
 		if f.Pkg != nil && strings.HasSuffix(f.Pkg.Pkg.Path(), "/cmds/server/log") {
 			continue // the reference logger is the sink, not a carrier
 		}
+		f = ta.p.view(f)
 		for i, a := range cc.Args {
 			if w, ok := ta.is(a); ok && i+off < len(f.Params) {
 				ta.mark(f.Params[i+off], w)
@@ -500,6 +504,7 @@ func (ta *taintAnalysis) passArgs(fn *ssa.Function, c ssa.CallInstruction) {
 // taintedKeysOf: keys of the record built by T.Fields() whose value is tainted.
 func (ta *taintAnalysis) taintedKeysOf(f *ssa.Function) []string {
 	var keys []string
+	f = ta.p.view(f)
 	for _, b := range f.Blocks {
 		for _, in := range b.Instrs {
 			if mu, ok := in.(*ssa.MapUpdate); ok {
@@ -548,7 +553,7 @@ func (ta *taintAnalysis) recordSourceOf(fn *ssa.Function, m ssa.Value, depth int
 					return recordSource{true, nil, "Fields() of a Request built locally (not client input)"}
 				}
 				var keys []string
-				for _, c := range allCalls(f) {
+				for _, c := range allCalls(ta.p.view(f)) {
 					if g := c.Common().StaticCallee(); g != nil && g.Name() == "Fields" && g != f {
 						keys = append(keys, ta.taintedKeysOf(g)...)
 					}
@@ -559,6 +564,7 @@ func (ta *taintAnalysis) recordSourceOf(fn *ssa.Function, m ssa.Value, depth int
 		}
 		// helper returning a record: follow its returns
 		if f.Blocks != nil {
+			f = ta.p.view(f)
 			var keys []string
 			known := false
 			for _, b := range f.Blocks {
@@ -695,6 +701,7 @@ func ruleTaint(p *Program, r *Result) {
 					ok = true
 				}
 			}
+			tgt = p.orig(tgt)
 			if !registered[tgt] {
 				registered[tgt] = true
 				userNameState[tgt] = ok
@@ -703,8 +710,23 @@ func ruleTaint(p *Program, r *Result) {
 			}
 		}
 	}
+	// helpers folded into their callers are judged there (their sinks appear in every caller's view with that
+	// caller's values); one that some view still calls (inlining bound) is judged on its own as well
+	residual := map[*ssa.Function]bool{}
+	if p.useViews {
+		for _, fn := range ta.fns {
+			for _, c := range allCalls(fn) {
+				if f := c.Common().StaticCallee(); f != nil {
+					residual[p.orig(f)] = true
+				}
+			}
+		}
+	}
 	for _, fn := range ta.fns {
 		if fn.Pkg != nil && strings.HasSuffix(fn.Pkg.Pkg.Path(), "/cmds/server/log") {
+			continue
+		}
+		if p.useViews && p.folded(p.orig(fn)) && !residual[p.orig(fn)] {
 			continue
 		}
 		ord := map[string]int{}
@@ -845,7 +867,7 @@ func ruleTaint(p *Program, r *Result) {
 				for _, key := range keys {
 					for _, tk := range src.keys {
 						if key == tk {
-							if key == "user-msg" && userNameState[fn] {
+							if key == "user-msg" && userNameState[p.orig(fn)] {
 								continue
 							}
 							bad = append(bad, key)
@@ -967,25 +989,7 @@ func (ta *taintAnalysis) typeSet(v ssa.Value, depth int, visiting map[ssa.Value]
 				base = sl.X
 			}
 			if a, ok := base.(*ssa.Alloc); ok {
-				var out []types.Type
-				n := 0
-				for _, rf := range refsOf(a) {
-					ia2, ok := rf.(*ssa.IndexAddr)
-					if !ok {
-						continue
-					}
-					for _, r2 := range refsOf(ia2) {
-						if st, ok := r2.(*ssa.Store); ok && st.Addr == ia2 {
-							n++
-							ts, ok := ta.typeSet(st.Val, depth-1, visiting)
-							if !ok {
-								return nil, false
-							}
-							out = append(out, ts...)
-						}
-					}
-				}
-				if n > 0 {
+				if out, ok := ta.elemTypeSet(a, depth, visiting); ok {
 					return out, true
 				}
 			}
@@ -1050,4 +1054,49 @@ func (ta *taintAnalysis) typeSet(v ssa.Value, depth int, visiting map[ssa.Value]
 		return out, true
 	}
 	return nil, false
+}
+
+// elemTypeSet: the concrete types held by the elements of a local array (or the array behind a local slice): joined
+// over the stores into its elements and, for an array copied whole from another local array (the result of a folded
+// helper returning an array), over that one's elements.
+func (ta *taintAnalysis) elemTypeSet(a *ssa.Alloc, depth int, visiting map[ssa.Value]bool) ([]types.Type, bool) {
+	if depth == 0 {
+		return nil, false
+	}
+	var out []types.Type
+	n := 0
+	for _, rf := range refsOf(a) {
+		switch r := rf.(type) {
+		case *ssa.IndexAddr:
+			for _, r2 := range refsOf(r) {
+				if st, ok := r2.(*ssa.Store); ok && st.Addr == ssa.Value(r) {
+					n++
+					ts, ok := ta.typeSet(st.Val, depth-1, visiting)
+					if !ok {
+						return nil, false
+					}
+					out = append(out, ts...)
+				}
+			}
+		case *ssa.Store:
+			if r.Addr != ssa.Value(a) {
+				continue
+			}
+			u, ok := r.Val.(*ssa.UnOp)
+			if !ok || u.Op != token.MUL {
+				return nil, false
+			}
+			b, ok := u.X.(*ssa.Alloc)
+			if !ok || b == a {
+				return nil, false
+			}
+			ts, ok := ta.elemTypeSet(b, depth-1, visiting)
+			if !ok {
+				return nil, false
+			}
+			n++
+			out = append(out, ts...)
+		}
+	}
+	return out, n > 0
 }
